@@ -8,13 +8,25 @@ Driver commands for the payload classes of the C01 model (Model/Payload*.lean).
 A value travels as one field of space-separated tokens (the conventions of Driver/Psd.lean: decimal integers, hex
 byte strings with `-` for empty, 0/1 for booleans and option tags, lists as a count followed by the items).
 
-Classes: `LayerInfoBlock` (tokens of a LayerInfo), `TaggedBlock` (signature key payload, payload = `0 <hex>` raw |
+Unit 2 classes (value tokens): `EmptyElement` 0 · `NumericElement` <bits> · `IntegerElement` / `ProtectedSetting` /
+`ShortIntegerElement` / `ByteElement` / `SheetColorSetting` <n> · `BooleanElement` 0|1 · `StringElement` <n> <code point>*n
+(`pad` of `pl.enc` is the writer's padding, of `pl.dec` the reader's) · `Color` <id> <n> <int>*n · `Bytes` <hex> ·
+`ReferencePoint` <n> <bits>*n · `SectionDividerSetting` <kind> opt<hex> opt<hex> opt<n> · `UserMask` color <n> <n> ·
+`FilterMask` color <n> · `ChannelBlendingRestrictionsSetting` <n> <n>*n · `PixelSourceData2` <n> <hex>*n ·
+`MetadataSetting` <hex> <hex> 0|1 (0 <hex> | 1 <n> | 2 block) · `MetadataSettings` <n> item*n ·
+`Annotation` kind isOpen flags optionalBlocks <n> int*n <n> int*n color author name modDate marker data ·
+`Annotations` major minor <n> item*n. For these the object is not changed by `write`: the fourth answer field is `=`.
+
+Unit 1 classes: `LayerInfoBlock` (tokens of a LayerInfo), `TaggedBlock` (signature key payload, payload = `0 <hex>` raw |
 `1 <LayerInfo>`), `PSD` (the deep document: header, colour mode data, resources, layer info, global mask info,
 typed blocks, image data; `version` is ignored, `pad` is the layer-info padding).
 -/
 import Driver.Util
 import Driver.Psd
+import Driver.Descriptor
 import PsdVerif.Model.PayloadLayerInfo
+import PsdVerif.Model.PayloadSimple
+import PsdVerif.Model.DescriptorTables
 
 namespace Driver.Payload
 open PsdVerif PsdVerif.Codec PsdVerif.Psd PsdVerif.Payload Driver Driver.Psd
@@ -50,6 +62,56 @@ def pDeepPSD : P DeepPSD := do
 def tDeepPSD (x : DeepPSD) : T :=
   tHeader x.header ++ tBytes x.colorModeData ++ tList tResource x.resources ++ tDeepLam x.layerAndMask ++ tImage x.imageData
 
+/-! ### unit 2 tokens -/
+
+def pStr : P Str := pList pNat
+def tStr (s : Str) : T := tList tNat s
+
+def pColor : P Color := do let id ← pNat; let vs ← pList pInt; pure ⟨id, vs⟩
+def tColor (c : Color) : T := tNat c.id ++ tList tInt c.values
+
+def pF64 : P UInt64 := do let n ← pNat; pure (UInt64.ofNat n)
+def tF64 (x : UInt64) : T := tNat x.toNat
+
+def pDivider : P SectionDividerSetting := do
+  let k ← pNat; let s ← pOpt pBytes; let b ← pOpt pBytes; let st ← pOpt pNat
+  pure ⟨k, s, b, st⟩
+def tDivider (x : SectionDividerSetting) : T := tNat x.kind ++ tOpt tBytes x.signature ++ tOpt tBytes x.blendMode ++ tOpt tNat x.subType
+
+def pUserMask : P UserMask := do let c ← pColor; let o ← pNat; let f ← pNat; pure ⟨c, o, f⟩
+def tUserMask (x : UserMask) : T := tColor x.color ++ tNat x.opacity ++ tNat x.flag
+def pFilterMask : P FilterMask := do let c ← pColor; let o ← pNat; pure ⟨c, o⟩
+def tFilterMask (x : FilterMask) : T := tColor x.color ++ tNat x.opacity
+
+def pMetaData : P MetaData := do
+  let tag ← pNat
+  if tag = 0 then do let b ← pBytes; pure (.raw b)
+  else if tag = 1 then do let n ← pNat; pure (.int n)
+  else do let blk ← Driver.Descriptor.pBlock; pure (.desc blk)
+def tMetaData : MetaData → T
+  | .raw b => "0" :: tBytes b
+  | .int n => "1" :: tNat n
+  | .desc blk => "2" :: Driver.Descriptor.tBlock blk []
+def pMetadataSetting : P MetadataSetting := do
+  let s ← pBytes; let k ← pBytes; let c ← pBool; let x ← pMetaData
+  pure ⟨s, k, c, x⟩
+def tMetadataSetting (x : MetadataSetting) : T := tBytes x.signature ++ tBytes x.key ++ tBool x.copyOnSheet ++ tMetaData x.data
+
+def pAnnotation : P Annotation := do
+  let kind ← pBytes; let io ← pNat; let fl ← pNat; let ob ← pNat; let ic ← pList pInt; let po ← pList pInt; let c ← pColor
+  let au ← pBytes; let nm ← pBytes; let md ← pBytes; let mk ← pBytes; let dt ← pBytes
+  pure ⟨kind, io, fl, ob, ic, po, c, au, nm, md, mk, dt⟩
+def tAnnotation (a : Annotation) : T :=
+  tBytes a.kind ++ tNat a.isOpen ++ tNat a.flags ++ tNat a.optionalBlocks ++ tList tInt a.iconLocation ++
+  tList tInt a.popupLocation ++ tColor a.color ++ tBytes a.author ++ tBytes a.name ++ tBytes a.modDate ++ tBytes a.marker ++
+  tBytes a.data
+def pAnnotations : P Annotations := do
+  let ma ← pNat; let mi ← pNat; let items ← pList pAnnotation
+  pure ⟨ma, mi, items⟩
+def tAnnotations (x : Annotations) : T := tNat x.majorVersion ++ tNat x.minorVersion ++ tList tAnnotation x.items
+
+def rtb : Descriptor.Tables := Descriptor.realTables
+
 /-! ### answers -/
 
 def encOut (r : Except Err W) (wf : Bool) (after : T) : String :=
@@ -57,9 +119,38 @@ def encOut (r : Except Err W) (wf : Bool) (after : T) : String :=
   | .ok w => okLine (toHexList w.1 ++ "\t" ++ toString w.2 ++ "\t" ++ (if wf then "1" else "0") ++ "\t" ++ join after)
   | .error e => errLine e
 
+/-- a `PCodec` class: parse, write (with the `written` accumulator), WF; `write` does not change the object -/
+def pcEnc {α : Type} (c : PCodec α) (p : P α) (toks : String) : String :=
+  match parseAll p toks with
+  | some v => encOut (c.encW v) (decide (c.WF v)) ["="]
+  | none => badRequest
+
+def pcDec {α : Type} (c : PCodec α) (t : α → T) (d : B) (p : Nat) : String := decOut t (c.dec d p)
+
 /-- one class: parse, write (with the `written` accumulator), WF, the object after `write` -/
 def encCmd (cls : String) (v pad : Nat) (toks : String) : String :=
   match cls with
+  | "EmptyElement" => pcEnc EmptyElement.codec (do let _ ← pNat; pure ()) toks
+  | "NumericElement" => pcEnc NumericElement.codec pF64 toks
+  | "IntegerElement" => pcEnc IntegerElement.codec pNat toks
+  | "ProtectedSetting" => pcEnc IntegerElement.codec pNat toks
+  | "ShortIntegerElement" => pcEnc ShortIntegerElement.codec pNat toks
+  | "ByteElement" => pcEnc ByteElement.codec pNat toks
+  | "BooleanElement" => pcEnc BooleanElement.codec pBool toks
+  | "StringElement" => pcEnc (StringElement.codec pad 1) pStr toks
+  | "Color" => pcEnc Color.codec pColor toks
+  | "Bytes" => pcEnc BytesElement.codec pBytes toks
+  | "SheetColorSetting" => pcEnc SheetColorSetting.codec pNat toks
+  | "ReferencePoint" => pcEnc ReferencePoint.codec (pList pF64) toks
+  | "SectionDividerSetting" => pcEnc SectionDividerSetting.codec pDivider toks
+  | "UserMask" => pcEnc UserMask.codec pUserMask toks
+  | "FilterMask" => pcEnc FilterMask.codec pFilterMask toks
+  | "ChannelBlendingRestrictionsSetting" => pcEnc ChannelBlendingRestrictionsSetting.codec (pList pNat) toks
+  | "PixelSourceData2" => pcEnc (PixelSourceData2.codec pad) (pList pBytes) toks
+  | "MetadataSetting" => pcEnc (MetadataSetting.codec rtb) pMetadataSetting toks
+  | "MetadataSettings" => pcEnc (MetadataSettings.codec rtb) (pList pMetadataSetting) toks
+  | "Annotation" => pcEnc Annotation.codec pAnnotation toks
+  | "Annotations" => pcEnc Annotations.codec pAnnotations toks
   | "LayerInfoBlock" =>
     (match parseAll pLayerInfo toks with
      | some li => encOut (LayerInfoBlock.encW v pad li) (decide (LayerInfoBlock.WF v li)) (tLayerInfo (blockRefresh li))
@@ -78,6 +169,27 @@ def encCmd (cls : String) (v pad : Nat) (toks : String) : String :=
 
 def decCmd (cls : String) (v pad : Nat) (d : B) (p : Nat) : String :=
   match cls with
+  | "EmptyElement" => pcDec EmptyElement.codec (fun _ => ["0"]) d p
+  | "NumericElement" => pcDec NumericElement.codec tF64 d p
+  | "IntegerElement" => pcDec IntegerElement.codec tNat d p
+  | "ProtectedSetting" => pcDec IntegerElement.codec tNat d p
+  | "ShortIntegerElement" => pcDec ShortIntegerElement.codec tNat d p
+  | "ByteElement" => pcDec ByteElement.codec tNat d p
+  | "BooleanElement" => pcDec BooleanElement.codec tBool d p
+  | "StringElement" => pcDec (StringElement.codec 1 pad) tStr d p
+  | "Color" => pcDec Color.codec tColor d p
+  | "Bytes" => pcDec BytesElement.codec tBytes d p
+  | "SheetColorSetting" => pcDec SheetColorSetting.codec tNat d p
+  | "ReferencePoint" => pcDec ReferencePoint.codec (tList tF64) d p
+  | "SectionDividerSetting" => pcDec SectionDividerSetting.codec tDivider d p
+  | "UserMask" => pcDec UserMask.codec tUserMask d p
+  | "FilterMask" => pcDec FilterMask.codec tFilterMask d p
+  | "ChannelBlendingRestrictionsSetting" => pcDec ChannelBlendingRestrictionsSetting.codec (tList tNat) d p
+  | "PixelSourceData2" => pcDec (PixelSourceData2.codec pad) (tList tBytes) d p
+  | "MetadataSetting" => pcDec (MetadataSetting.codec rtb) tMetadataSetting d p
+  | "MetadataSettings" => pcDec (MetadataSettings.codec rtb) (tList tMetadataSetting) d p
+  | "Annotation" => pcDec Annotation.codec tAnnotation d p
+  | "Annotations" => pcDec Annotations.codec tAnnotations d p
   | "LayerInfoBlock" => decOut tLayerInfo (LayerInfoBlock.dec v d p)
   | "TaggedBlock" => decOut (tOpt tTBlock) (TBlock.dec v pad d p)
   | "PSD" => decOut tDeepPSD (DeepPSD.read d p)
